@@ -292,6 +292,31 @@ fn evaluate(c: &Case) -> Outcome {
         Ok(Ok(p)) => p,
     };
 
+    // 4b. the public chain arithmetic of the parsed header agrees with the demanded chain
+    {
+        let chain = blpcheck::expected_chain(c.w, c.h, c.mips);
+        let got = parsed.header.mipmaps_count() + 1;
+        if got != chain.len() {
+            fails.push(Fail::new(
+                "header-mipmaps_count-disagrees-with-chain-to-1x1",
+                format!(
+                    "{tname} {}x{} mips={}: header.mipmaps_count()+1 = {got}, chain down to 1x1 has {} levels",
+                    c.w, c.h, c.mips, chain.len()
+                ),
+            ));
+        }
+        for (i, want) in chain.iter().enumerate() {
+            let g = parsed.header.mipmap_size(i);
+            if g != *want {
+                fails.push(Fail::new(
+                    "header-mipmap_size-disagrees-with-halving",
+                    format!("{tname} {}x{}: header.mipmap_size({i}) = {g:?}, expected {want:?}", c.w, c.h),
+                ));
+                break;
+            }
+        }
+    }
+
     // 5. identical structure
     if let Some(mut f) = diff_image(&blp, &parsed, enc, short) {
         f.message = format!("{tname} {}x{} mips={}: {}", c.w, c.h, c.mips, f.message);
